@@ -285,6 +285,18 @@ def is_copy_guard(c):
     return pa and pb
 
 
+def is_grow_guard(c):
+    """size > dataBuf.capacity()"""
+    c = strip(c)
+    if c.get("kind") != "BinaryOperator" or c.get("opcode") not in (">", "<"):
+        return False
+    a, b = inner(c)
+    if c.get("opcode") == "<":
+        a, b = b, a
+    cp = call_parts(b)
+    return nsym(a) == "NArg" and bool(cp) and cp[0] == "capacity" and not cp[2] and cp[1] is not None and this_member(cp[1]) == "dataBuf"
+
+
 def is_not_self(c):
     c = strip(c)
     if c.get("kind") == "BinaryOperator" and c.get("opcode") == "!=":
@@ -325,6 +337,10 @@ def stmt_ops(s):
             for x in stmts_of(then):
                 body += stmt_ops(x)
             return ["MIfNotSelf [%s]" % "; ".join(body)]
+        if len(ins) == 2 and is_grow_guard(cond):
+            th = stmts_of(then)
+            if len(th) == 1 and stmt_ops(th[0]) == ["MBufReserve"]:
+                return ["MBufReserve"]          # reserve(n) is itself a no-op unless n > capacity()
         if len(ins) == 2 and is_copy_guard(cond):
             th = stmts_of(then)
             if len(th) == 1 and is_memcpy_call(th[0]):
@@ -344,6 +360,8 @@ def stmt_ops(s):
                 return ["MBufShrink"]
             if name == "resize" and len(args) == 2 and nsym(args[0]) == "NArg" and param_ref(args[1]):
                 return ["MBufResize"]
+            if name == "reserve" and len(args) == 1 and nsym(args[0]) == "NArg":
+                return ["MBufReserve"]
             if name == "assign" and len(args) == 2 and all(mentions_param(a) for a in args):
                 return ["MBufRange"]
         if name == "reset" and not args and obj is not None and param_ref(obj):
@@ -471,6 +489,54 @@ def classify_member(cls_name, d):
         if name == "resize" and pre == "OA":
             return "OA_Resize"
     return None
+
+
+# ------------------------------------------------------------------ signatures: by-reference / pointer parameters
+def param_kind(t, cls_name):
+    """classification of a parameter type of a wrapper member (element type c11inst::E)"""
+    t = t.replace("const ", "const~").replace(" ", "").replace("const~", "const ")
+    selfref = cls_name + "<c11inst::E>"
+    if selfref in t and t.endswith("&&"): return "self_rref"
+    if selfref in t and t.endswith("&"): return "self_cref"
+    if "shared_ptr<" in t and t.endswith("&"): return "shared_ptr_ref"
+    if ("vector<" in t or "array<" in t) and t.endswith("&"): return "container_ref"
+    if t in ("const c11inst::E&", "c11inst::E&", "const E&", "E&"): return "elem_ref"
+    if t in ("c11inst::E*", "const c11inst::E*", "E*", "const E*"): return "elem_ptr"
+    if t.endswith("*"): return "other_ptr"
+    if t.endswith("&"): return "other_ref"
+    return "value"
+
+
+def signatures(cl):
+    """every public constructor / method of the wrapper classes with the kinds of its parameters"""
+    out = []
+    for cn, cdecl in cl.items():
+        access = "public"      # struct
+        seen = set()
+        for c in inner(cdecl):
+            k = c.get("kind")
+            if k == "AccessSpecDecl":
+                access = c.get("access", access)
+                continue
+            ds = []
+            if k in ("CXXConstructorDecl", "CXXMethodDecl"):
+                ds = [c]
+            elif k == "FunctionTemplateDecl":
+                specs = [x for x in inner(c) if x.get("kind") in ("CXXConstructorDecl", "CXXMethodDecl")]
+                ds = specs[-1:] if len(specs) >= 2 else []
+            for d in ds:
+                if access != "public" and not d.get("isImplicit"):
+                    continue
+                name = "<ctor>" if d.get("kind") == "CXXConstructorDecl" else d.get("name")
+                pts = param_types(d)
+                kinds = [param_kind(t, cn) for t in pts]
+                key = (cn, name, tuple(kinds))
+                if key in seen:
+                    continue
+                seen.add(key)
+                out.append({"class": cn, "member": name, "implicit": bool(d.get("isImplicit")),
+                            "params": [{"type": t, "kind": kd} for t, kd in zip(pts, kinds)]})
+    return out
 
 
 # ------------------------------------------------------------------ (1) special members
@@ -766,7 +832,7 @@ def extract(repo, work, inc=None):
             if m and body_of(d) is not None and m not in table:
                 table[m] = member_ops(d, cn)
     exprs, notes = expr_facts(cl["AbstractArray"], cl["DataView"]) if "AbstractArray" in cl and "DataView" in cl else (unknown_facts()[2], ["classes missing"])
-    return special, table, exprs, notes
+    return special, table, exprs, notes, signatures(cl)
 
 
 def main(argv):
@@ -778,7 +844,7 @@ def main(argv):
     ap.add_argument("--work", default="/tmp/c11ast")
     ap.add_argument("--inc", default=None)
     a = ap.parse_args(argv)
-    special, table, exprs, notes = extract(a.repo, a.work, a.inc)
+    special, table, exprs, notes, sigs = extract(a.repo, a.work, a.inc)
     txt = coq_text(special, table, exprs)
     if a.out:
         os.makedirs(os.path.dirname(os.path.abspath(a.out)), exist_ok=True)
@@ -787,7 +853,7 @@ def main(argv):
     else:
         sys.stdout.write(txt)
     if a.json:
-        json.dump({"special": special, "table": table, "exprs": exprs, "notes": notes}, open(a.json, "w"), indent=1)
+        json.dump({"special": special, "table": table, "exprs": exprs, "notes": notes, "signatures": sigs}, open(a.json, "w"), indent=1)
     return 0
 
 
